@@ -68,6 +68,7 @@ EvalPages(t, r) ==
         M == Match(DbOf(t), q)
         L == r.args.L
         T == TabsOf(t)
+        pks == ImplKeys(T, q)
     IN
     [bad   |-> Fail("C17.Pages", r.obs.err = "" /\ PagesOK(M, L, r.obs.pages))
                \cup
@@ -75,7 +76,7 @@ EvalPages(t, r) ==
                                   /\ Len(r.obs.totals) = Len(r.obs.pages)
                                   /\ \A p \in DOMAIN r.obs.pages :
                                         FindOK(M, (p - 1) * L, L, r.obs.pages[p], r.obs.totals[p])),
-     drift |-> ~(\A p \in DOMAIN r.obs.pages : r.obs.pages[p] = ImplFind(T, q, (p - 1) * L, L).items),
+     drift |-> ~(\A p \in DOMAIN r.obs.pages : r.obs.pages[p] = ImplPage(T, pks, (p - 1) * L, L).items),
      cnt   |-> IF Cardinality(M) > L THEN Unit(5) ELSE Zero]
 
 EvalFacet(t, r) ==
